@@ -209,17 +209,23 @@ def one_case(ctx, e, ds, cfgt, outs, where):
             ok = False
             ctx.model_mismatch("K-fold as_const", dict(case, kind="as_const"), repr(m)[:300], repr(r)[:300], None)
     # ---- K-gen
-    real_code = X.real_output_code(env, tsrc)
-    if gen.startswith("C "):
-        m = ("C", X.canon_text("ok " + gen[2:])[1])
+    unprintable = fold.startswith("K") and gen.startswith("X ") and not vol
+    if unprintable:
+        # the model knows the constant but cannot print it (repr of strings with quotes, floats ...): its
+        # output_child falls back to run-time code by construction; K-gen is outside the model here
+        ctx.count("constant_text_opaque")
     else:
-        try:
-            m = ("X", X.norm_py(gen[2:]))
-        except SyntaxError as ex:
-            m = ("E", "model text does not parse: " + str(ex))
-    if real_code != m:
-        ok = False
-        ctx.model_mismatch("K-gen output code", dict(case, kind="gen"), repr(m)[:500], repr(real_code)[:500], None)
+        real_code = X.real_output_code(env, tsrc)
+        if gen.startswith("C "):
+            m = ("C", X.canon_text("ok " + gen[2:])[1])
+        else:
+            try:
+                m = ("X", X.norm_py(gen[2:]))
+            except SyntaxError as ex:
+                m = ("E", "model text does not parse: " + str(ex))
+        if real_code != m:
+            ok = False
+            ctx.model_mismatch("K-gen output code", dict(case, kind="gen"), repr(m)[:500], repr(real_code)[:500], None)
     # ---- K-eval: rendered text
     r = X.canon_text(f["R"])
     if r != ("err", "opaque"):
@@ -240,6 +246,8 @@ def build_lines(e, ds, cfgt):
 
 SENS = ("~", [("C", "<a>"), ("F", ("C", "<b>"), "safe", [])])      # an autoescape-sensitive constant
 FIXED = [
+    ("B", "pow", ("U", "neg", ("C", 1)), ("N", "i0")), ("B", "pow", ("B", "sub", ("C", 0), ("C", 2)), ("N", "i1")),
+    ("sl", ("U", "neg", ("C", 1)), ("C", 1), None, None), ("[]", ("U", "neg", ("C", 3)), ("N", "i0")),
     ("F", ("C", ""), "default", [SENS, ("C", True)]), ("F", ("L", [("C", "x"), ("C", "y")]), "join", [SENS]),
     ("is", ("C", "<a><b>"), "eq", [SENS]), ("F", ("N", "u0"), "default", [("F", ("L", [("C", "<"), ("F", ("C", ">"), "safe", [])]), "join", [])]),
     ("is", SENS, "in", [("L", [SENS, ("C", 1)])]), ("call", ("N", "f1"), [SENS], [("p", SENS)]),
